@@ -52,10 +52,12 @@ func (its *Timestamp) ToString() string {
 }
 
 // Hash returns the string hash of timestamp.
-// DON'T change this because protocol can be broken : TODO: this can be improved.
+// It is only used as an in-process lookup key (never sent or stored), and it has to be
+// injective: without separators (lamport 1, delimiter 11) and (lamport 11, delimiter 1)
+// would share one key.
 func (its *Timestamp) Hash() string {
 	var b strings.Builder
-	_, _ = fmt.Fprintf(&b, "%d%d%d%s", its.Era, its.Lamport, its.Delimiter, its.CUID)
+	_, _ = fmt.Fprintf(&b, "%d:%d:%d:%s", its.Era, its.Lamport, its.Delimiter, its.CUID)
 	return b.String()
 }
 
